@@ -255,7 +255,7 @@ def body_bytes(kind, idx):
     return b'<html>hello body %d</html>\n' % idx
 
 
-SHAPES = ('canon', 'nospace', 'lf', 'folded', 'empty', 'long', 'wide', 'noreason', 'foldedblank', 'nocolon', 'hibyte', 'huge')
+SHAPES = ('canon', 'nospace', 'lf', 'folded', 'empty', 'long', 'wide', 'noreason', 'foldedblank', 'nocolon', 'hibyte', 'huge', 'tabfold')
 
 
 def response_wire(shape, body, idx):
@@ -279,6 +279,11 @@ def response_wire(shape, body, idx):
         h = (b'HTTP/1.1 200 OK\r\nX-Long: part one\r\n   \r\nContent-Type: text/xml\r\n'
              b'Content-Length: %d\r\n\r\n' % n)
         return h, body, 200, 'text/xml'
+    if shape == 'tabfold':
+        # obs-fold with a TAB (no space-folded line anywhere): the media type is on the continuation line
+        h = (b'HTTP/1.1 200 OK\r\nX-Other: a\r\n\tb\r\nContent-Type:\r\n\ttext/css\r\n'
+             b'Content-Length: %d\r\n\r\n' % n)
+        return h, body, 200, 'text/css'
     if shape == 'nocolon':
         # a stray line without a colon: the HTTP client parses headers leniently and accepts it
         h = (b'HTTP/1.1 200 OK\r\nstray line without colon\r\nContent-Type: text/csv\r\n'
@@ -500,6 +505,8 @@ class Exec(object):
         if k == 'ftp':
             return self.do_ftp(rec, e, idx)
         url = 'http://h.test/p%d' % idx
+        if e.get('longurl'):
+            url += '/' + 'segment-%d/' % idx * 90 + 'x' * 300      # > 1024 characters: header fields stay one line each
         body = body_bytes(e.get('body', 'text'), idx)
         head, body, status, mime = response_wire(e['shape'], body, idx)
         self.wire[url] = {'hl': len(head), 'bd': rd.b32sha1(body), 'status': status, 'mime': mime,
